@@ -282,6 +282,25 @@ func (r *R) Gen(ctx sdk.Context, g *hx.Rng) string {
 		}
 		return r.genCreate(ctx, g, have)
 	}
+	// genesis round trip inside the history (C12): the exported document, and a re-import after which
+	// the rest of the history runs on the imported state. Drawn only with the flag: without it the
+	// histories (C17) are what they were.
+	if r.Genesis {
+		// a re-import collapses every history to one value: make it rarer while no feed holds two
+		// values yet, so that collapsing imports are reached
+		wRe := 2
+		for _, fi := range fis {
+			if len(r.env.Oracle.GetFeedValues(ctx, fi.feed.FeedName)) >= 2 {
+				wRe = 5
+			}
+		}
+		switch g.Pick(3, wRe, 40) {
+		case 0:
+			return "oracle export"
+		case 1:
+			return "oracle reimport batches=" + r.batches(ctx)
+		}
+	}
 	pickFeed := func() feedInfo { return fis[g.Intn(len(fis))] }
 	switch g.Pick(wCreate, 5*wFeedOp, 3*wFeedOp, 5*wFeedOp, wRespond, wBlock, 1, 1, 3) {
 	case 0:
